@@ -135,8 +135,13 @@ func (t *QuicTransport) exchangeStream(ctx context.Context, payload []byte, stre
 		err  error
 	}
 	rc := make(chan res, 1)
+
+	// The goroutine may outlive this call if ctx is done. Give it its own
+	// copy of the payload. The caller will release payload when this call returns.
+	payloadCopy := copyMsg(payload)
 	go func() {
-		_, err = stream.Write(payload)
+		_, err := stream.Write(payloadCopy)
+		pool.ReleaseBuf(payloadCopy)
 		if err != nil {
 			stream.CancelRead(_DOQ_REQUEST_CANCELLED)
 			stream.CancelWrite(_DOQ_REQUEST_CANCELLED)
